@@ -41,6 +41,14 @@ FAULTS = {
     "undefined-symbol-operand": ["lda.w undef_zz"],
     "undefined-symbol-data": [".dw 1, undef_zz"],
     "undefined-symbol-definition": ["k_bad = undef_zz + 1"],
+    # the same undefined name where the value is needed at other times: while the program is expanded (:=, .if, .for, *=), as a
+    # macro argument, and in the late (=) re-definition of a name that already has a value
+    "undefined-symbol-assign": ["k_bad := undef_zz + 1"],
+    "undefined-symbol-redefinition": ["k_flt_r := 1", "k_flt_r = undef_zz + 1"],
+    "undefined-symbol-redefinition-used": ["k_flt_s := 1", ".db k_flt_s", "k_flt_s = undef_zz", ".db k_flt_s"],
+    "undefined-symbol-loop-bound": [".for i_f := 0, undef_zz {", ".db 1", "}"],
+    "undefined-symbol-position": ["*=undef_zz"],
+    "undefined-symbol-macro-argument": [".macro m_flt5(p_ff) {", ".db p_ff", "}", "m_flt5(undef_zz)"],
     "undefined-macro": ["m_undefined(1)"],
     "too-few-macro-arguments": [".macro m_flt(p_fa, p_fb) {", ".db p_fa, p_fb", "}", "m_flt(1)"],
     "too-few-macro-arguments-unused-parameter": [".macro m_flt2(p_fc, p_fd) {", ".db p_fc", "}", "m_flt2(1)"],
@@ -85,7 +93,7 @@ FAULTS = {
     "missing-close-paren-far-right": [".dw " + ", ".join(f"0x{i:04x}" for i in range(200)) + ", (1 + 2"],
     "invalid-character-far-right": [".db " + ", ".join(f"0x{i:02x}" for i in range(70)) + ", $"],
     "undefined-symbol-far-right": [".dl " + ", ".join(f"0x{i:06x}" for i in range(150)) + ", undef_zz"],
-    # (not definite errors, hence not injected: a stray `else { }` right after an .if block is its else branch; a line that
+    # (not definite errors, hence not injected: `.if undefined_name { }` is the false branch by design (generate_if); a stray `else { }` right after an .if block is its else branch; a line that
     #  starts with a binary operator continues the expression of the previous line -- newlines are plain white space)
 }
 FAULT_FILES = {"bad_header.ips": {"hex": (b"PATCX" + b"\x02\x00\x00\x00\x01a" + b"EOF").hex()},
